@@ -251,3 +251,33 @@ Proof.
   assert (Hn : s <> t) by congruence. clear -Hn.
   revert s t Hn. generalize (bufs m) as l0. induction l0 as [|h r IH]; intros [|s] [|t] Hn; cbn; auto; try congruence.
 Qed.
+
+(* ---- frame conditions: what sampling and adding leave untouched ---- *)
+(** sampling never changes the stored priorities or the tracked maximum *)
+Lemma pb_sample_frame p n mask us : prio (fst (pb_sample p n mask us)) = prio p /\ maxp (fst (pb_sample p n mask us)) = maxp p.
+Proof. unfold pb_sample. cbn. split; reflexivity. Qed.
+
+Lemma sbp_sample_frame b us :
+  p_sb (fst (sbp_sample_starts b us)) = p_sb b /\ prio (p_pb (fst (sbp_sample_starts b us))) = prio (p_pb b) /\
+  maxp (p_pb (fst (sbp_sample_starts b us))) = maxp (p_pb b).
+Proof. unfold sbp_sample_starts, pb_sample. cbn. repeat split; reflexivity. Qed.
+
+(** initialising the priority of the written slots leaves every other slot untouched *)
+Lemma pb_init_prio_frame p idxs j : ~ In j idxs -> nth j (prio (pb_init_prio p idxs)) 0%Q = nth j (prio p) 0%Q.
+Proof.
+  unfold pb_init_prio. cbn [prio]. generalize (prio p) as pr. induction idxs as [|i idxs IH]; intros pr H; cbn [fold_left]; [reflexivity|].
+  rewrite IH by (intro Hc; apply H; right; exact Hc).
+  apply nth_upd_other. intro E. apply H. left. exact E.
+Qed.
+
+(** the in-place variant (masked priorities written back into the store) loses the priority of an
+    entry that was masked at the time of a draw: it can never be drawn afterwards *)
+Definition pb_sample_inplace (p : pb) (n : nat) (mask : option (list bool)) (us : list Q) : pb * list nat :=
+  let idx := pb_sample_idx (prio p) n mask us in
+  ({| prio := apply_mask (firstn n (prio p)) (option_map (firstn n) mask) ++ skipn n (prio p); maxp := maxp p; sampled := idx |}, idx).
+Lemma pb_sample_inplace_refuted :
+  exists p n mask us i, (0 < nth i (prio p) 0)%Q /\ (nth i (prio (fst (pb_sample_inplace p n mask us))) 0 == 0)%Q.
+Proof.
+  exists {| prio := [1; 1; 1]%Q; maxp := 1%Q; sampled := [] |}, 3, (Some [true; true; false]), [(1 # 2)%Q], 2.
+  split; vm_compute; reflexivity.
+Qed.
